@@ -6,6 +6,7 @@ the documented precedence table.  Real parser: parse(w) and parse(Paren(w)) must
 which PanGrammar also prints in the form of the parser's ast String() (an absolute oracle: a rewrite that regroups a statement
 whatever parentheses are written would satisfy the first relation)."""
 import json
+import re
 import pvlib
 from pvlib import Check, run_tlc, run_cases, payloads
 
@@ -24,6 +25,9 @@ def judge(ck, cases, binary, label, thorough=False):
             if c["j"] == 0 and not c["undet"]:
                 for k in (range(len(WRAPPERS)) if thorough else [(i * 3 + d) % len(WRAPPERS) for d in range(3)]):
                     reqs.append({"id": f"w{i}.{k}", "mode": "parse", "src": WRAPPERS[k].replace("QQ", c["src"])})
+            if c["j"] == 0 and not c["undet"] and set(c["u"]) == {1} and " if " not in c["src"] and " else " not in c["src"]:
+                # predicate-style names (`a?`) as operands, written without any space: a name takes its suffix, the operator follows
+                reqs.append({"id": f"q{i}", "mode": "parse", "src": re.sub(r"\b([abcd])\b", r"\1?", c["src"]).replace(" ", "")})
     reqs += [{"id": f"t{k}", "mode": "parse", "src": w} for k, w in enumerate(WRAPPERS)]
     out = run_cases(reqs, binary=binary, label=label)
     templ = [out[f"t{k}"]["end"] for k in range(len(WRAPPERS))]
@@ -64,6 +68,14 @@ def judge(ck, cases, binary, label, thorough=False):
                       {"src": c["src"], "paren": c["paren"], "parse": s, "expected_tree": c["ast"], "variant": label})
         elif c["paren"].count("(") >= 2:
             nontrivial.add(c["src"])
+        q = out.get(f"q{i}")
+        if q is not None and s == "ast:" + c["ast"]:
+            stats["tight_predicate_names"] = stats.get("tight_predicate_names", 0) + 1
+            want = "ast:" + re.sub(r"\b([abcd])\b", r"\1?", c["ast"])
+            if q["end"] != want:
+                tight = re.sub(r"\b([abcd])\b", r"\1?", c["src"]).replace(" ", "")
+                ck.reject(f"C02:tight:{label}:c={','.join(str(x) for x in c['c'])}", f"{tight!r} (the statement {c['src']!r} with predicate-style names and no spaces) parses as {q['end'][4:]!r}; the table prescribes {want[4:]!r}",
+                          {"src": tight, "paren": re.sub(r"\b([abcd])\b", r"\1?", c["paren"]), "parse": q["end"], "expected_tree": want[4:], "variant": label})
         if s == "ast:" + c["ast"] and c["j"] == 0:
             for k in range(len(WRAPPERS)):
                 w = out.get(f"w{i}.{k}")
